@@ -175,6 +175,8 @@ def build_inputs(tier):
         cases.append(("call", (pre, fn, written, suf)))
     for cont in ["a \\\n b", "(b \\\n + c)", "x, y \\\n", "'s' \\\r\n 't'"]:
         cases.append(("call", ("r = ", "f", cont.split(",") if "," in cont and "(" not in cont else [cont], "\n")))
+    cases.append(("call", ("", "match", ["a", " b"], "\n")))
+    cases.append(("call", ("x = ", "match", ["a b"], "\n")))
     for rest in ["{a} b", "(a (b) c) d", "f'{x}' y", "`a.*` z", "[x [y]]"]:
         cases.append(("proc", (f"$(echo! {rest})", "echo", rest, "subproc_captured", "", "\n")))
     for _ in range(500 * N):
@@ -198,6 +200,8 @@ def classify(kind, o):
     src = o.get("src") or ""
     if kind == "call" and o.get("kind") == "args-not-verbatim" and re.search(r"\\\r?\n", "".join(o.get("want") or [])):
         return "KF-C07-continuation-in-call-macro"
+    if kind == "call" and o.get("kind") == "rejected" and any(ln.lstrip().startswith("match!(") for ln in src.split("\n")):
+        return "KF-C07-macro-named-match"
     if kind == "proc" and o.get("kind") in ("rejected", "rest-not-verbatim", "macro-count") and o.get("proc_rest_class"):
         return "KF-C07-proc-macro-token-kinds"
     return None
